@@ -397,3 +397,136 @@ var c01Enc = pbt.Register(pbt.Prop[GoCase]{
 })
 
 func TestC01Encode(t *testing.T) { pbt.Run(t, c01Enc) }
+
+// ---- (C) lists with an interface element type whose elements share a TAG but not a Go type -------------------
+//
+// A `[]any` (or `[N]any`, or a `[]nbt.Marshaler`-like mix) is one NBT list when all its elements map to the same tag.
+// The elements may still be different Go types: a plain value next to a RawMessage (or a named type with methods)
+// that carries the same tag. Every element must be encoded as what IT is, wherever it stands in the list.
+
+type C01Mixed struct {
+	Elems   []*rn.Tag `json:"elems"`   // trees of one tag type
+	Carrier []int     `json:"carrier"` // per element: 0 plain Go value, 1 nbt.RawMessage, 2 pointer to the plain value
+	Where   int       `json:"where"`   // 0 root, 1 struct field, 2 map value
+	Network bool      `json:"network"`
+}
+
+func c01CheckMixed(c C01Mixed) *pbt.Violation {
+	list := make([]any, len(c.Elems))
+	for i, e := range c.Elems {
+		a := gm.AnyVD(e)
+		v := gm.Build(a.Dyn, a.Elems[0])
+		switch c.Carrier[i] % 3 {
+		case 1:
+			list[i] = nbt.RawMessage{Type: e.Type, Data: rn.EncodePayload(e)}
+		case 2:
+			list[i] = v.Addr().Interface()
+		default:
+			list[i] = v.Interface()
+		}
+	}
+	want := &rn.Tag{Type: rn.List, Elem: c.Elems[0].Type, L: c.Elems}
+	var arg any = list
+	switch c.Where {
+	case 1:
+		arg = struct {
+			A int16 `nbt:"a"`
+			L []any `nbt:"l"`
+			Z int16 `nbt:"z"`
+		}{1, list, 2}
+		want = &rn.Tag{Type: rn.Compound, K: [][]byte{[]byte("a"), []byte("l"), []byte("z")}, V: []*rn.Tag{{Type: rn.Short, I: 1}, want, {Type: rn.Short, I: 2}}}
+	case 2:
+		arg = map[string]any{"l": list}
+		want = &rn.Tag{Type: rn.Compound, K: [][]byte{[]byte("l")}, V: []*rn.Tag{want}}
+	}
+	var buf bytes.Buffer
+	var err error
+	if pv, stack := pbt.Try(func() {
+		e := nbt.NewEncoder(&buf)
+		e.NetworkFormat(c.Network)
+		err = e.Encode(arg, "")
+	}); pv != nil {
+		return pbt.V(pbt.PanicKey("c01.mixed", stack), "encoding does not panic", "Encode of a %d-element list (carriers %v) panicked: %v\n%s", len(list), c.Carrier, pv, stack)
+	}
+	if err != nil {
+		return nil // a refusal is C02's business
+	}
+	got, _, n, derr := rn.Decode(buf.Bytes(), c.Network)
+	if derr != nil || n != buf.Len() {
+		return pbt.V("c01.mixed.malformed", "emitted bytes are a well-formed document", "list with carriers %v: reference reader: err=%v consumed %d of %d: % x", c.Carrier, derr, n, buf.Len(), clipB(buf.Bytes()))
+	}
+	// a non-empty list of Byte/Int/Long and the typed array with the same numbers are accepted for each other
+	// (plain []any values of those kinds are written as typed arrays; the documentation is silent)
+	if d := rn.Diff(arraysForNumberLists(want), arraysForNumberLists(got), rn.EqOpts{IgnoreEmptyListElem: true}); d != "" {
+		return pbt.V("c01.mixed.tree", "an independent reader decodes the same tree (every element of a list is encoded as what it is)",
+			"list of %d elements of tag %d, carriers %v (0 plain, 1 RawMessage, 2 pointer): %s\n got  %s\n want %s", len(list), c.Elems[0].Type, c.Carrier, d, got, want)
+	}
+	return nil
+}
+
+func arraysForNumberLists(t *rn.Tag) *rn.Tag {
+	n := *t
+	switch t.Type {
+	case rn.List:
+		if len(t.L) > 0 {
+			switch t.Elem {
+			case rn.Byte:
+				n = rn.Tag{Type: rn.ByteArray}
+				for _, e := range t.L {
+					n.B = append(n.B, byte(e.I))
+				}
+				return &n
+			case rn.Int:
+				n = rn.Tag{Type: rn.IntArray}
+				for _, e := range t.L {
+					n.Ints = append(n.Ints, int32(e.I))
+				}
+				return &n
+			case rn.Long:
+				n = rn.Tag{Type: rn.LongArray}
+				for _, e := range t.L {
+					n.Longs = append(n.Longs, e.I)
+				}
+				return &n
+			}
+		}
+		n.L = make([]*rn.Tag, len(t.L))
+		for i, e := range t.L {
+			n.L[i] = arraysForNumberLists(e)
+		}
+		if len(n.L) > 0 {
+			n.Elem = n.L[0].Type
+		}
+	case rn.Compound:
+		n.V = make([]*rn.Tag, len(t.V))
+		for i, e := range t.V {
+			n.V[i] = arraysForNumberLists(e)
+		}
+	}
+	return &n
+}
+
+var c01Mixed = pbt.Register(pbt.Prop[C01Mixed]{
+	Name: "C01EncodeMixed",
+	Gen: func(t *rapid.T) C01Mixed {
+		// element tags: not Byte/Int/Long ([]any of those is turned into a typed array), not End
+		tag := rapid.SampledFrom([]byte{rn.Short, rn.Float, rn.Double, rn.String, rn.String, rn.Compound, rn.Compound, rn.List, rn.ByteArray, rn.IntArray, rn.LongArray}).Draw(t, "tag")
+		c := C01Mixed{Where: rapid.IntRange(0, 2).Draw(t, "where"), Network: rapid.Bool().Draw(t, "network")}
+		for i, n := 0, rapid.IntRange(1, 5).Draw(t, "n"); i < n; i++ {
+			c.Elems = append(c.Elems, gen.Tree(t, gen.TreeOpts{MaxDepth: 2, MaxNodes: 8, NoBigStr: true, RootTypes: []byte{tag}}))
+			c.Carrier = append(c.Carrier, rapid.SampledFrom([]int{0, 0, 1, 1, 2}).Draw(t, "carrier"))
+		}
+		return c
+	},
+	Check: c01CheckMixed,
+	Classify: func(c C01Mixed) (bool, []string, []byte) {
+		kinds := map[int]bool{}
+		for _, k := range c.Carrier {
+			kinds[k%3] = true
+		}
+		return len(kinds) >= 2, []string{fmt.Sprintf("mixed_where_%d", c.Where)}, nil
+	},
+	Quick: 96000, Thorough: 2000000,
+})
+
+func TestC01EncodeMixed(t *testing.T) { pbt.Run(t, c01Mixed) }
